@@ -36,27 +36,77 @@ Sub-checks (lattice sweeps, one fresh product per evaluation)
               Indicators thresholds avoid ties with V (a tie would compare exp/log roundings, not the library).
     cvroute   (adjacent to the statement) a product used as control variate gets, through ControlVariates.initialisation /
               process, the value it has when evaluated on its own.
+    factory   Payoff.create(OptionType, ...) (positional and keyword arguments; Forward, Vanilla call/put, Barrier of the 4
+              types, 5 strikes, 2 barriers) builds the class and values the 6 one-asset paths as the constructor's object.
+Configuration menu (shared by purity, inputs, manager): every payoff class except LookBack and every public underlying
+    class, 52 (payoff, underlying) configurations of 6 kinds with their own path menus: one asset (6 paths), two assets (5),
+    three assets (5; terminal spots in the orders high-low-mid, increasing, mid-high-low, decreasing), Libor rates (4),
+    one-name (5) and three-name (4) cumulative log-jump paths.  Rainbow (call and put) on Spot and on Performances with
+    2 and 3 assets, NthSpot of every index, Swaption payer and receiver, Digital call and put.
+Inputs are not modified, later consumers see the same values (per configuration x representation x path of its menu)
+    inputs    at the observation point of the property (Product.update, Product.underlying_value(times, path, jump_path),
+              Product(value)) on arrays formed as MCPath.process forms them: the times / path / jump-path arrays are
+              bit-identical after underlying_value and after Product(value) (dtype, shape, bytes); the underlying value
+              handed to Product(value) is bit-identical afterwards (it is what the control variates receive, and for Spot /
+              Libors in the identity representation a VIEW of the path); a second Product(value) on the same underlying
+              value gives the same value; the direct value equals MCPath.process; notional c in the notional alphabet
+              gives c times the value of notional 1 (finite values).  Then EVERY configuration of the same kind (a second
+              object of the same configuration included) is (a) valued on the arrays as the first product left them and
+              (b) valued as ControlVariates does: implied(times, path, jump_path, underlying value of the first product)
+              with implied = imply_from_payoff_underlying(type of the first underlying), Payoff.process(times, path),
+              product(value); both must equal the consumer's value on its own copy of the path (twins: see below).
+    manager   the engines' sequences with everything switched on: path manager with activate_spot_underlying=True and
+              update(representation), ControlVariates(...).initialisation(type of the main underlying); MCPath.process and
+              MLMCPath.process_l0 on every path, MLMCPath.process on every ordered pair (fine, coarse) of paths of equal
+              length.  Per path: a run without control, a run with each control of the kind alone (key carries the
+              control's payoff / underlying class; twins alone too, see below), a run with all usable controls together (for the multilevel route one
+              run per shape of underlying value, as process_mlmc stacks them) and the same run after the SAME path manager
+              and ControlVariates object served another product (other underlying class) - the last two reported only when
+              the single runs are silent.  Oracle: payoff and every control-variate value equal the value of that product
+              on its own copy of the path (rtol 1e-12), the spot statistic (path_manager.spot_underlying, read after
+              process as MCStatistics.add does) equals the terminal spots of the path (rtol 1e-9), the arrays handed to
+              the StochasticJumpPath are bit-identical afterwards.
 Explicit-state search
-    purity    one Product object per configuration (every payoff class except LookBack, every underlying class); menu =
-              evaluate path p_j through MCPath.process (6 paths: inside / crossing up / crossing down / out of the money /
-              crossing both / other length), evaluate an ordered pair (fine p_i, coarse p_j) through MLMCPath.process,
-              update(LOG), update(IDENDITY); depth 3 (quick) / 4.  Invariant: every observed value equals the value of a
+    purity    one Product object per configuration of the menu; events =
+              evaluate path p_j through MCPath.process (the menu of the kind, e.g. one asset: inside / crossing up /
+              crossing down / out of the money / crossing both / other length), evaluate an ordered pair (fine p_i, coarse
+              p_j) through MLMCPath.process, update(LOG), update(IDENDITY), replace the product by copy.deepcopy of itself
+              and value p_0 / p_1 (what worker processes receive), let a SECOND object of the same configuration switched
+              to LOG / to identity value p_1 and then value p_0 with the product under test (leaks through class
+              attributes, module-level caches, shared defaults); depth 3 (quick) / 4.  Invariant: every observed value
+              equals the value of a
               freshly constructed product updated once to the current representation and given that path alone (MCPath;
               MLMCPath.process_l0 is checked to agree with it for scalar payoffs).
               Canonical state = snapshot of every instance attribute of product, payoff, underlying (recursively; bound
               methods by name) + the representation last requested: two histories with the same snapshot hold equal
               objects, so their futures agree.
+              Stored bound methods are part of the snapshot together with whether they are bound to their holder.
               Failure classes (in the key): identity value after an earlier update(LOG) (component = underlying class);
-              value depends on earlier paths; for pairs whose wrong result is reproduced by a fresh product: fine value
-              depends on the coarse path / coarse value depends on the fine path (order of MLMCPath.process).
+              value depends on earlier paths; deep copy valued differently / value depends on another object of the
+              configuration (when the same history with a plain evaluation in the place of the last event is right); for
+              pairs whose wrong result is reproduced by a fresh product: fine value depends on the coarse path / coarse
+              value depends on the fine path (order of MLMCPath.process).
 
 Not covered / outside the alphabet: LookBack (its process() raises ValueError by construction: "it depends on the process
 representation"); call spread / butterfly with unordered strikes (constructor rejects them); ties between jump sizes and
 default thresholds; barrier tie rule; the digital tie rule in the LOG representation (exp(log(100.)) != 100.);
 antithetic paths; values outside the alphabets.
+Controls: every configuration of the kind with a scalar payoff, Barrier products included (ControlVariates.process /
+process_mlmc call Payoff.process(times, path) before product(value); inputs(b) does the same); controls with vector payoffs
+are outside the alphabet (the statistics rows are scalar per control).
+Twins (enumerated deliberately, reported under their own key): a control whose underlying is an instance of the main
+underlying's class with OTHER parameters - every parametrised public underlying class has two parameter values in some
+kind (Performances, MaximumOfPerformances, Indicators with other spots / thresholds, NthSpot 1/2 and 1/2/3,
+DefaultTime -0.35/-0.05, NthDefaultTimes 1/2, DefaultTimeNthUnderlying 1/3, Asian DAILY/WEEKLY whose parameter does not
+enter the value and must agree).  inputs(b) and one manager run per twin control and route.  When the control's value
+differs from its own value AND equals exactly its payoff applied to the MAIN underlying value, the key is
+C17:controls:<underlying class>:control-of-the-same-underlying-class-with-other-parameters-gets-the-main-underlying-value
+(imply_from_payoff_underlying tests isinstance only: an open finding); any other mismatch keeps the ordinary key.
+A main product that raises on a path (none on the unchanged tree) is classified by purity and skipped by inputs / manager.
 """
 from __future__ import annotations
 
+import copy
 import itertools
 import math
 
@@ -69,7 +119,10 @@ LEVEL = "model_checking"
 RULE = (
     "complete products of the 5-letter alphabets (path values, strikes, barriers, thresholds, notionals) with all paths "
     "of the stated lengths, as spot and as log paths, each evaluated on a fresh product through the real MCPath/MLMCPath; "
-    "BFS over histories of evaluations / representation switches on one Product with full-snapshot canonical states; a "
+    "BFS over histories of evaluations / representation switches / deep copies / a second object of the configuration on one "
+    "Product with full-snapshot canonical states; for every configuration x representation x path: bit-exact comparison "
+    "of all inputs before / after evaluation and every configuration of the kind as later consumer (same arrays, implied "
+    "control) and as control variate in the real path managers with spot statistics; a "
     "case is non-trivial when it compared at least one identity or one history value against the fresh-product reference; "
     "distinct = distinct case dict"
 )
@@ -138,6 +191,13 @@ def cases(tier):
     for name in sorted(_cv_configs()):
         for rep in REPS:
             out.append({"sub": "cvroute", "config": name, "rep": rep})
+    out.append({"sub": "factory"})
+    # every (payoff, underlying) configuration of the purity menu, in both representations: evaluating it must leave its
+    # inputs alone and every later consumer of the same path / underlying value must see the values it sees on its own
+    for name in sorted(_purity_configs()):
+        for rep in REPS:
+            out.append({"sub": "inputs", "config": name, "rep": rep})
+            out.append({"sub": "manager", "config": name, "rep": rep})
     for i, c in enumerate(out):
         if i % 8 == 0:
             c["recheck"] = True  # determinism self-check: executed twice on fresh objects, observations compared
@@ -679,6 +739,12 @@ P1D = [[100.0, 105.0, 108.0], [100.0, 125.0, 108.0], [100.0, 80.0, 104.0], [100.
        [100.0, 125.0, 80.0, 104.0], [104.0, 104.0]]
 P2D = [[[100.0, 105.0, 108.0], [80.0, 85.0, 90.0]], [[100.0, 90.0, 70.0], [80.0, 120.0, 125.0]],
        [[100.0, 100.0, 100.0], [80.0, 80.0, 80.0]], [[100.0, 130.0, 131.0], [80.0, 60.0, 50.0]], [[95.0, 104.0], [104.0, 95.0]]]
+# three assets: terminal spots in the orders (high, low, mid), increasing, (mid, high, low), decreasing; other length
+P3D = [[[100.0, 110.0, 130.0], [100.0, 95.0, 80.0], [100.0, 102.0, 105.0]],
+       [[100.0, 90.0, 85.0], [100.0, 101.0, 104.0], [100.0, 120.0, 125.0]],
+       [[100.0, 99.0, 101.0], [100.0, 140.0, 128.0], [100.0, 70.0, 75.0]],
+       [[100.0, 115.0, 122.0], [100.0, 100.0, 100.0], [100.0, 97.0, 81.0]],
+       [[104.0, 95.0], [80.0, 125.0], [100.0, 99.0]]]
 PRATES = [[[0.02, 0.03], [0.025, 0.01], [0.03, 0.035]], [[0.02, 0.01], [0.025, 0.04], [0.03, 0.02]],
           [[0.02, 0.02], [0.025, 0.025], [0.03, 0.03]], [[0.02, 0.05], [0.025, 0.06], [0.03, 0.001]]]
 # cumulative log-jump paths, one name / three names
@@ -713,12 +779,34 @@ def _purity_configs():
     cfg["Forward:NthSpot[2]"] = ("spot2", lambda PO, UN: (UN.NthSpot(2), PO.Forward(80.0)))
     cfg["PayoffOnTheFly[sum]:Indicators"] = ("spot2", lambda PO, UN: (UN.Indicators([95.0, 85.0]), PO.PayoffOnTheFly(_total)))
     cfg["PayoffOnTheFly[sum]:Spot[2d]"] = ("spot2", lambda PO, UN: (UN.Spot(), PO.PayoffOnTheFly(_total)))
+    cfg["Rainbow[PUT]:Spot[2d]"] = ("spot2", lambda PO, UN: (UN.Spot(), PO.Rainbow([0.6, 0.4], 101.0, PO.PayoffType.PUT)))
+    cfg["Digital[PUT]:Spot"] = ("spot1", lambda PO, UN: (UN.Spot(), PO.Digital(104.0, PO.PayoffType.PUT)))
+    s3 = [100.0, 80.0, 125.0]
+    cfg["Rainbow[CALL]:Spot[3d]"] = ("spot3", lambda PO, UN: (UN.Spot(), PO.Rainbow([0.5, 0.3, 0.2], 100.0, PO.PayoffType.CALL)))
+    cfg["Rainbow[PUT]:Performances[3d]"] = ("spot3", lambda PO, UN: (UN.Performances(s3), PO.Rainbow([0.5, 0.3, 0.2], 1.3, PO.PayoffType.PUT)))
+    cfg["Vanilla[CALL]:MaximumOfPerformances[3d]"] = ("spot3", lambda PO, UN: (UN.MaximumOfPerformances(s3), PO.Vanilla(1.0, PO.PayoffType.CALL)))
+    cfg["Forward:Mean[3d]"] = ("spot3", lambda PO, UN: (UN.Mean(), PO.Forward(90.0)))
+    cfg["PayoffOnTheFly[sum]:Spot[3d]"] = ("spot3", lambda PO, UN: (UN.Spot(), PO.PayoffOnTheFly(_total)))
+    cfg["PayoffOnTheFly[sum]:Indicators[3d]"] = ("spot3", lambda PO, UN: (UN.Indicators([95.0, 85.0, 90.0]), PO.PayoffOnTheFly(_total)))
+    for k in (1, 2, 3):
+        cfg[f"Vanilla[CALL]:NthSpot[{k}of3]"] = ("spot3", lambda PO, UN, k=k: (UN.NthSpot(k), PO.Vanilla(100.0, PO.PayoffType.CALL)))
     r0, dl = np.array([0.02, 0.025, 0.03]), np.array([0.5, 0.5, 0.5])
     cfg["Bond:Libors"] = ("rates", lambda PO, UN: (UN.Libors(), PO.Bond(r0, dl)))
     cfg["Cap:Libors"] = ("rates", lambda PO, UN: (UN.Libors(), PO.Cap(r0, dl, 0.02)))
     cfg["Ratchet:Libors"] = ("rates", lambda PO, UN: (UN.Libors(), PO.Ratchet(dl, 1.0, 0.001, 0.002, 0.001, 0.01)))
+    # twins: the same underlying class with OTHER parameters (every parametrised public underlying class has two parameter
+    # values in some kind; Asian's discretisation does not enter its value: a pair that must agree)
+    cfg["Rainbow[CALL]:Performances[other]"] = ("spot2", lambda PO, UN: (UN.Performances([90.0, 100.0]), PO.Rainbow([0.7, 0.3], 1.0, PO.PayoffType.CALL)))
+    cfg["Vanilla[CALL]:MaximumOfPerformances[other]"] = ("spot2", lambda PO, UN: (UN.MaximumOfPerformances([90.0, 100.0]), PO.Vanilla(1.0, PO.PayoffType.CALL)))
+    cfg["Forward:NthSpot[1]"] = ("spot2", lambda PO, UN: (UN.NthSpot(1), PO.Forward(80.0)))
+    cfg["PayoffOnTheFly[sum]:Indicators[other]"] = ("spot2", lambda PO, UN: (UN.Indicators([105.0, 60.0]), PO.PayoffOnTheFly(_total)))
+    cfg["Forward:Asian[WEEKLY]"] = ("spot1", lambda PO, UN: (UN.Asian(UN.Discretisation.WEEKLY), PO.Forward(100.0)))
+    cfg["Forward:DefaultTime[other]"] = ("jump1", lambda PO, UN: (UN.DefaultTime(-0.05), PO.Forward(0.0)))
+    cfg["Forward:DefaultTimeNthUnderlying[1]"] = ("jump3", lambda PO, UN: (UN.DefaultTimeNthUnderlying([-0.05, -0.05, -0.35], 1), PO.Forward(0.0)))
     cfg["Swaption[PAYER]:Libors"] = ("rates", lambda PO, UN: (UN.Libors(), PO.Swaption(r0, dl, 0.02, PO.SwaptionType.PAYER)))
+    cfg["Swaption[RECEIVER]:Libors"] = ("rates", lambda PO, UN: (UN.Libors(), PO.Swaption(r0, dl, 0.03, PO.SwaptionType.RECEIVER)))
     cfg["CDS:DefaultTime"] = ("jump1", lambda PO, UN: (UN.DefaultTime(-0.35), PO.CDS(0.4, 0.01, 1.0, _df)))
+    cfg["Forward:DefaultTime"] = ("jump1", lambda PO, UN: (UN.DefaultTime(-0.35), PO.Forward(0.0)))
     cfg["Forward:NthDefaultTimes[1]"] = ("jump3", lambda PO, UN: (UN.NthDefaultTimes([-0.35, -0.35, -0.05], 1), PO.Forward(0.0)))
     cfg["Forward:NthDefaultTimes[2]"] = ("jump3", lambda PO, UN: (UN.NthDefaultTimes([-0.35, -0.35, -0.05], 2), PO.Forward(0.0)))
     cfg["Forward:DefaultTimeNthUnderlying[3]"] = ("jump3", lambda PO, UN: (UN.DefaultTimeNthUnderlying([-0.05, -0.05, -0.35], 3), PO.Forward(0.0)))
@@ -737,7 +825,7 @@ def _df(t):
     return math.exp(-0.03 * t)
 
 
-PATH_MENUS = {"spot1": P1D, "spot2": P2D, "rates": PRATES, "jump1": J1, "jump3": J3}
+PATH_MENUS = {"spot1": P1D, "spot2": P2D, "spot3": P3D, "rates": PRATES, "jump1": J1, "jump3": J3}
 
 
 def _encode(kind, rep, raw):
@@ -750,8 +838,10 @@ def _encode(kind, rep, raw):
     return times_for(n), (np.log(a) if rep == "log" else a), np.zeros_like(a)
 
 
-def _snap(o, depth=0):
-    """Hashable snapshot of all instance state (the only state these objects have)."""
+def _snap(o, depth=0, owner=None):
+    """Hashable snapshot of all instance state (the only state these objects have).  A bound method stored on an instance
+    is recorded with its function name and whether it is bound to the instance holding it (a copy whose stored methods
+    still point to the original object is another state)."""
     import enum
     import types
 
@@ -766,7 +856,8 @@ def _snap(o, depth=0):
     if isinstance(o, (list, tuple)):
         return tuple(_snap(x, depth + 1) for x in o)
     if isinstance(o, types.MethodType):
-        return ("method", getattr(o.__func__, "__name__", "?"))
+        bound = "own" if (owner is None or o.__self__ is owner) else "other:" + type(o.__self__).__name__
+        return ("method", getattr(o.__func__, "__name__", "?"), bound)
     if callable(o) and not hasattr(o, "__dict__"):
         return ("callable", getattr(o, "__qualname__", type(o).__name__))
     if isinstance(o, types.FunctionType):
@@ -774,7 +865,7 @@ def _snap(o, depth=0):
     d = getattr(o, "__dict__", None)
     if d is None or depth > 4:
         return ("obj", type(o).__name__)
-    return (type(o).__name__,) + tuple((k, _snap(v, depth + 1)) for k, v in sorted(d.items()))
+    return (type(o).__name__,) + tuple((k, _snap(v, depth + 1, o)) for k, v in sorted(d.items()))
 
 
 def _payoff_label(name):
@@ -793,6 +884,11 @@ def _sub_purity(sh, case):
     events = [["eval", j] for j in range(len(paths))]
     events += [["pair", i, j] for i in same_len for j in same_len if i != j]
     events += [["update", "log"], ["update", "id"]]
+    # the product is replaced by a deep copy of itself (what the worker processes of the engines receive), then values a path
+    events += [["copy", j] for j in range(min(2, len(paths)))]
+    # a SECOND product object of the same configuration, switched to representation r, values path 1 in between; then the
+    # product under test values path 0 (state shared through class attributes, module-level caches, default arguments)
+    events += [["other", r, min(1, len(paths) - 1), 0] for r in REPS]
 
     def fresh():
         u, p = factory(PO, UN)
@@ -847,6 +943,14 @@ def _sub_purity(sh, case):
                 prod.update(_rep(ev[1]))
                 rep = ev[1]
                 obs.append(None)
+            elif ev[0] == "copy":
+                prod = copy.deepcopy(prod)
+                obs.append(run_event(prod, rep, ["eval", ev[1]]))
+            elif ev[0] == "other":
+                second = fresh()
+                second.update(_rep(ev[1]))
+                run_event(second, ev[1], ["eval", ev[2]])
+                obs.append(run_event(prod, rep, ["eval", ev[3]]))
             else:
                 obs.append(run_event(prod, rep, ev))
         return prod, rep, obs
@@ -874,14 +978,23 @@ def _sub_purity(sh, case):
         got = obs[-1]
         hc = history_class(hist, rep)
         sh.cls(f"purity-history-{hc}")
-        if ev[0] == "eval":
-            ref = reference(rep, ev[1])
-            sh.outcome((name, rep, ev[1], _obs_key(ref)))
+        if ev[0] in ("eval", "copy", "other"):
+            idx = ev[3] if ev[0] == "other" else ev[1]
+            ref = reference(rep, idx)
+            sh.outcome((name, rep, idx, _obs_key(ref)))
             if same_obs(got, ref):
                 return None
-            what = (f"{name}: after history {hist[:-1]} (current representation {rep}) path {paths[ev[1]]} is valued "
-                    f"{_obs_show(got)}; a fresh product updated once to {rep} gives {_obs_show(ref)}")
+            what = (f"{name}: after history {hist[:-1]} (current representation {rep}) path {paths[idx]} is valued "
+                    f"{_obs_show(got)}{' by ' + _EVENT_WORDS[ev[0]] if ev[0] != 'eval' else ''}; a fresh product updated "
+                    f"once to {rep} gives {_obs_show(ref)}")
             detail = {"history": hist, "observed": _obs_show(got), "fresh": _obs_show(ref)}
+            if ev[0] != "eval":
+                # the same history with a plain evaluation in the place of the last event: right there => the copy / the
+                # other object is the cause
+                plain = build(hist[:-1] + [["eval", idx]])[2][-1]
+                if same_obs(plain, ref):
+                    which = "deep-copy-valued-differently" if ev[0] == "copy" else "value-depends-on-another-object-of-the-configuration"
+                    return (f"{key_payoff}:{which}", what, detail)
             if hc == "identity-after-log-update":
                 return (key_underlying, what, detail)
             if hc == "after-earlier-paths":
@@ -914,6 +1027,9 @@ def _sub_purity(sh, case):
     sh.nontriv()
     sh.cls(f"purity-{kind}")
     sh.sample({"sub": "purity", "config": name, "states": s, "transitions": t, "max_depth": d, "menu": len(events)})
+
+
+_EVENT_WORDS = {"copy": "a deep copy of the product", "other": "the product after a second object of the configuration valued a path"}
 
 
 def _obs_key(o):
@@ -977,4 +1093,380 @@ def _sub_cvroute(sh, case):
             sh.violation(f"C17:cvroute:{name}:control-variate-value-differs-from-own-evaluation:{rep}",
                          f"path {raw}: through ControlVariates {got.tolist()}, alone {exp.tolist()}", None)
         sh.outcome((name, rep, np.round(got, 9).tolist()))
+    sh.nontriv()
+
+
+# ----------------------------------------------------------------------------------------------------------------------
+# the factory is a second construction route to the same payoffs
+# ----------------------------------------------------------------------------------------------------------------------
+
+def _sub_factory(sh, case):
+    PO, UN = L()["PO"], L()["UN"]
+    OT, PT_, BT = PO.OptionType, PO.PayoffType, PO.BarrierType
+    routes = []
+    for k in STRIKES:
+        routes.append(("Forward", (OT.FORWARD, (k,), {}), lambda k=k: PO.Forward(k)))
+        routes.append(("Forward", (OT.FORWARD, (), {"strike": k}), lambda k=k: PO.Forward(k)))
+        for pt in (PT_.CALL, PT_.PUT):
+            routes.append(("Vanilla", (OT.VANILLA, (k, pt), {}), lambda k=k, pt=pt: PO.Vanilla(k, pt)))
+            routes.append(("Vanilla", (OT.VANILLA, (), {"strike": k, "payoff_type": pt}), lambda k=k, pt=pt: PO.Vanilla(k, pt)))
+            for bt in BT:
+                for b in (BARRIERS[1], BARRIERS[3]):
+                    routes.append(("Barrier", (OT.BARRIER, (k, pt, bt, b), {}), lambda k=k, pt=pt, bt=bt, b=b: PO.Barrier(k, pt, bt, b)))
+    nev = 0
+    for cname, (ot, a, kw), direct in routes:
+        made = safe(lambda: PO.Payoff.create(ot, *a, **kw))
+        if made[0] == "raise" or type(made[1]) is not type(direct()):
+            sh.violation(f"C17:factory:{cname}:create-does-not-build-the-class",
+                         f"Payoff.create({ot.name}, {a}, {kw}) -> {made[1] if made[0] == 'raise' else type(made[1]).__name__}", None)
+            continue
+        for rep in REPS:
+            for path in P1D:
+                got = safe(lambda: spot_eval(rep, UN.Spot(), PO.Payoff.create(ot, *a, **kw), path))
+                exp = safe(lambda: spot_eval(rep, UN.Spot(), direct(), path))
+                nev += 2
+                if not same_obs(got, exp):
+                    sh.violation(f"C17:factory:{cname}:created-payoff-valued-differently-from-constructed:{rep}",
+                                 f"Payoff.create({ot.name}, {a}, {kw}) on spot path {path} (rep {rep}): {_obs_show(got)}; "
+                                 f"the constructor's object gives {_obs_show(exp)}", {"path": path})
+                sh.outcome((cname, rep, tuple(path), _obs_key(exp)))
+    sh.count("evaluations", nev)
+    sh.nontriv()
+
+
+# ----------------------------------------------------------------------------------------------------------------------
+# evaluating a product does not modify what it is given; later consumers of the same path see the same values
+# ----------------------------------------------------------------------------------------------------------------------
+
+def _freeze(x):
+    """Bit-exact picture of an input or intermediate value (arrays and views: dtype, shape, bytes; time grids and
+    sequences: their elements)."""
+    if isinstance(x, np.ndarray):
+        return ("nd", str(x.dtype), x.shape, x.tobytes())
+    if isinstance(x, np.generic):
+        return ("sc", repr(x.item()))
+    if isinstance(x, (bool, int, float, str, type(None))):
+        return ("sc", repr(x))
+    try:
+        return ("seq", tuple(_freeze(v) for v in x))
+    except TypeError:
+        return ("obj", type(x).__name__)
+
+
+def _changed(before, arrays):
+    """names of the inputs (times, path, jump-path) that no longer have the content they had"""
+    return [n for n, b, a in zip(("times", "path", "jump-path"), before, arrays) if _freeze(a) != b]
+
+
+def _kind_peers(kind):
+    return sorted(n for n, (k, _) in _purity_configs().items() if k == kind)
+
+
+def _mk(name, rep, notional=2.0):
+    lib = L()
+    u, p = _purity_configs()[name][1](lib["PO"], lib["UN"])
+    pr = lib["Product"](payoff_underlying=u, payoff=p, maturity=1.0, notional=notional)
+    pr.update(_rep(rep))
+    return pr
+
+
+def _arrays(kind, rep, raw):
+    """(times, path, jump path) as MCPath.process forms them (zero deterministic part); new arrays at every call"""
+    t, d, j = _encode(kind, rep, raw)
+    return t, 0.0 + (d + j), j
+
+
+def _direct(prod, t, path, j):
+    """the observation point of the property: Product.underlying_value then Product(value)"""
+    return prod(prod.underlying_value(t, path, j))
+
+
+TWIN_KEY = "C17:controls:{ucls}:control-of-the-same-underlying-class-with-other-parameters-gets-the-main-underlying-value"
+
+
+def _is_twin(main, ctrl):
+    """the control's underlying is an instance of the main underlying's class but has other parameters:
+    Underlying.imply_from_payoff_underlying looks at the type only and hands the control the MAIN underlying value"""
+    mu, cu = main.payoff_underlying, ctrl.payoff_underlying
+    return isinstance(cu, type(mu)) and _snap(cu) != _snap(mu)
+
+
+def _usable_as_control(main, ctrl):
+    """Controls of the ordinary alphabet: every configuration of the kind except the twins (enumerated on their own, see
+    _is_twin) and LookBack (not constructible in a usable state)."""
+    return not isinstance(ctrl.payoff, L()["PO"].LookBack) and not _is_twin(main, ctrl)
+
+
+def _terminal_spots(kind, raw):
+    a = np.asarray(raw, dtype=float)
+    return np.exp(a[..., -1]) if kind in ("jump1", "jump3") else a[..., -1]
+
+
+def _finite(o):
+    return o[0] == "ok" and bool(np.all(np.isfinite(np.asarray(o[1], dtype=float))))
+
+
+def _sub_inputs(sh, case):
+    name, rep = case["config"], case["rep"]
+    kind = _purity_configs()[name][0]
+    paths, peers = PATH_MENUS[kind], _kind_peers(kind)
+    main0 = _mk(name, rep)
+    ucls, plabel = type(main0.payoff_underlying).__name__, _payoff_label(name)
+    key = f"C17:inputs:{plabel}:{ucls}"
+    refs = {}
+
+    def ref(n, idx, notional=2.0):
+        if (n, idx, notional) not in refs:
+            refs[(n, idx, notional)] = safe(lambda: _direct(_mk(n, rep, notional), *_arrays(kind, rep, paths[idx])))
+        return refs[(n, idx, notional)]
+
+    nev = 0
+    for idx, raw in enumerate(paths):
+        arrays = _arrays(kind, rep, raw)
+        before = tuple(_freeze(a) for a in arrays)
+        main = _mk(name, rep)
+        ru = safe(lambda: main.underlying_value(*arrays))
+        nev += 1
+        if ru[0] == "raise":  # classified by the purity search; nothing handed on
+            sh.count("inputs_main_raises")
+            sh.outcome((name, rep, idx, "raise"))
+            continue
+        for which in _changed(before, arrays):
+            sh.violation(f"{key}:underlying-value-modifies-its-{which}:{rep}",
+                         f"{name} rep {rep}: Product.underlying_value on path {raw} changed the {which} array it was given", {"path": raw})
+        u = ru[1]
+        u_before = _freeze(u)
+        rv = safe(lambda: main(u))
+        if rv[0] == "raise":
+            sh.count("inputs_main_raises")
+            sh.outcome((name, rep, idx, "raise"))
+            continue
+        if _freeze(u) != u_before:
+            sh.violation(f"{key}:evaluation-modifies-the-underlying-value:{rep}",
+                         f"{name} rep {rep} path {raw}: Product(value) changed the underlying value it was given "
+                         f"(now {np.asarray(u).tolist()}); the control variates receive that object afterwards", {"path": raw})
+        for which in _changed(before, arrays):
+            sh.violation(f"{key}:evaluation-modifies-its-{which}:{rep}",
+                         f"{name} rep {rep}: Product(value) changed the {which} array of path {raw} "
+                         f"(now {np.asarray(arrays[('times', 'path', 'jump-path').index(which)]).tolist()})", {"path": raw})
+        again = safe(lambda: main(u))
+        if not same_obs(rv, again):
+            sh.violation(f"{key}:second-evaluation-of-the-same-underlying-value-differs:{rep}",
+                         f"{name} rep {rep} path {raw}: Product(value) gives {_obs_show(rv)}, then {_obs_show(again)}", {"path": raw})
+        t, d, j = _encode(kind, rep, raw)
+        via_manager = safe(lambda: mc_eval(_mk(name, rep), t, d, j))
+        if not same_obs(rv, via_manager):
+            sh.violation(f"{key}:direct-evaluation-differs-from-path-manager:{rep}",
+                         f"{name} rep {rep} path {raw}: underlying_value + call gives {_obs_show(rv)}, MCPath.process {_obs_show(via_manager)}", {"path": raw})
+        nev += 3
+        # notional scales linearly, for every payoff / underlying of the menu
+        unit = ref(name, idx, 1.0)
+        if _finite(unit):
+            for c in NOTIONALS:
+                vc = ref(name, idx, c)
+                nev += 1
+                if vc[0] != "ok" or not arr_close(vc[1], c * np.asarray(unit[1], dtype=float), 1e-12, None):
+                    sh.violation(f"C17:static:Product:notional-not-linear:{plabel}:{ucls}:{rep}",
+                                 f"{name} rep {rep} path {raw}: notional {c} gives {_obs_show(vc)}, notional 1 gives {_obs_show(unit)}", {"path": raw})
+        else:
+            sh.count("notional_not_compared_infinite_value")
+        # later consumers: every configuration of the kind (a second object of the same configuration included)
+        # each consumer gets what the product under test left behind (content of the arrays after its evaluation), not
+        # what an earlier consumer of this loop may have done to it: that belongs to the consumer's own case
+        left, u_left = tuple(copy.deepcopy(a) for a in arrays), copy.deepcopy(u)
+        for peer in peers:
+            expected = ref(peer, idx)
+            q = _mk(peer, rep)
+            arrays, u = tuple(copy.deepcopy(a) for a in left), copy.deepcopy(u_left)
+            got = safe(lambda: _direct(q, *arrays))
+            nev += 1
+            if not same_obs(got, expected):
+                sh.violation(f"{key}:later-product-on-the-same-path-valued-differently:{rep}",
+                             f"after {name} (rep {rep}) valued path {raw}, {peer} values the same arrays {_obs_show(got)}; "
+                             f"on its own copy of the path it gives {_obs_show(expected)}", {"path": raw, "consumer": peer})
+            qc = _mk(peer, rep)
+            twin = _is_twin(main, qc)
+            fun = qc.payoff_underlying.imply_from_payoff_underlying(type(main.payoff_underlying))
+
+            def as_control():  # ControlVariates.process: implied underlying, Payoff.process(times, path), product(value)
+                value = fun(arrays[0], arrays[1], arrays[2], u)
+                qc.payoff.process(arrays[0], arrays[1])
+                return qc(value)
+
+            gotc = safe(as_control)
+            nev += 1
+            if twin:
+                sh.cls("control-twin-" + ("agrees" if same_obs(gotc, expected) else "differs"))
+                if not same_obs(gotc, expected) and same_obs(gotc, safe(lambda: _mk(peer, rep)(copy.deepcopy(u_left)))):
+                    sh.violation(TWIN_KEY.format(ucls=ucls),
+                                 f"main {name}, control {peer} (rep {rep}) on path {raw}: the control implied by "
+                                 f"imply_from_payoff_underlying({ucls}) is valued {_obs_show(gotc)} = its payoff on the MAIN underlying "
+                                 f"value {np.asarray(u_left, dtype=float).tolist()}; on its own it is {_obs_show(expected)}",
+                                 {"path": raw, "main": name, "control": peer})
+                    continue
+            if not same_obs(gotc, expected):
+                sh.violation(f"{key}:control-implied-from-its-underlying-value-valued-differently:{rep}",
+                             f"after {name} (rep {rep}) valued path {raw}, the control {peer} implied from its underlying value "
+                             f"(ControlVariates.initialisation / process) is {_obs_show(gotc)}; on its own {_obs_show(expected)}",
+                             {"path": raw, "control": peer})
+            sh.cls("control-" + ("implied" if getattr(fun, "__self__", None) is None else "own-value"))
+        sh.outcome((name, rep, idx, _obs_key(rv)))
+    sh.count("evaluations", nev)
+    sh.nontriv()
+
+
+def _sub_manager(sh, case):
+    """The engines' own sequences with everything switched on: spot statistics and control variates; MCPath.process,
+    MLMCPath.process_l0 and MLMCPath.process (fine / coarse pairs).  Per path: one run without control, one run per usable
+    control of the kind (failures carry the control's class in the key), one run with all of them together (reported only
+    when the single runs are silent: then the interplay of the controls is the cause)."""
+    lib = L()
+    CV = lib["CV"]
+    name, rep = case["config"], case["rep"]
+    kind = _purity_configs()[name][0]
+    paths, peers = PATH_MENUS[kind], _kind_peers(kind)
+    main0 = _mk(name, rep)
+    ucls, plabel = type(main0.payoff_underlying).__name__, _payoff_label(name)
+    key = f"C17:manager:{plabel}:{ucls}"
+    refs, urefs = {}, {}
+
+    def ref(n, idx, notional=1.0):
+        if (n, idx, notional) not in refs:
+            refs[(n, idx, notional)] = safe(lambda: _direct(_mk(n, rep, notional), *_arrays(kind, rep, paths[idx])))
+        return refs[(n, idx, notional)]
+
+    def mref(idx):
+        return ref(name, idx, 2.0)  # the product under test has notional 2, the controls notional 1
+
+    def ushape(n):
+        if n not in urefs:
+            r = safe(lambda: _mk(n, rep).underlying_value(*_arrays(kind, rep, paths[0])))
+            urefs[n] = np.shape(r[1]) if r[0] == "ok" else None
+        return urefs[n]
+
+    scalar = [n for n in peers if all(ref(n, i)[0] == "ok" and np.ndim(ref(n, i)[1]) == 0 for i in range(len(paths)))]
+    controls = [n for n in scalar if _usable_as_control(main0, _mk(n, rep))]
+    twins = [n for n in scalar if _is_twin(main0, _mk(n, rep))]
+    groups = {}
+    for n in controls:  # ControlVariates.process_mlmc stacks the underlying values of the controls: one shape per call
+        groups.setdefault(repr(ushape(n)), []).append(n)
+    same_len = [i for i in range(len(paths)) if np.asarray(paths[i]).shape == np.asarray(paths[0]).shape]
+    nev = 0
+
+    def differs(got, expected, rtol):
+        if expected[0] != "ok":
+            return True
+        if not _finite(expected):
+            return not same_obs(("ok", got), expected)
+        return np.shape(got) != np.shape(expected[1]) or not arr_close(got, expected[1], rtol, None)
+
+    other_main = next((n for n in peers if type(_mk(n, rep).payoff_underlying) is not type(main0.payoff_underlying)), None)
+
+    def run(route, idxs, names, warm=None):
+        """-> list of (failure class, text) for one manager run with the controls `names`; warm: the path manager and the
+        ControlVariates object first serve another product (other underlying class) on the last path of the menu"""
+        nonlocal nev
+        multilevel = route == "MLMCPath.process"
+        mgr = lib["MCPath" if route == "MCPath.process" else "MLMCPath"](deterministic_path=_zero_det, activate_spot_underlying=True)
+        mgr.update(_rep(rep))
+        main = _mk(name, rep)
+        products = [_mk(n, rep, 1.0) for n in names]
+        cv = CV(products=products, prices=[0.0] * len(products)) if products else lib["NoCV"]()
+        if warm is not None:
+            first = _mk(warm, rep)
+            cv.initialisation(type(first.payoff_underlying))
+            tw, dw, jw = _encode(kind, rep, paths[same_len[-1]])
+            mgr.set_to_path(lib["SJP"](tw, np.stack([dw, dw]), np.stack([jw, jw])) if multilevel else lib["SJP"](tw, dw, jw))
+            safe(lambda: getattr(mgr, route.split(".")[1])(first, cv))
+        cv.initialisation(type(main.payoff_underlying))  # Configuration.initialisation(product)
+        enc_ = [_encode(kind, rep, paths[i]) for i in idxs]
+        t = enc_[0][0]
+        d, j = (np.stack([e[1] for e in enc_]), np.stack([e[2] for e in enc_])) if multilevel else (enc_[0][1], enc_[0][2])
+        before = (_freeze(t), _freeze(d), _freeze(j))
+        mgr.set_to_path(lib["SJP"](t, d, j))
+        r = safe(lambda: getattr(mgr, route.split(".")[1])(main, cv))
+        nev += len(idxs) * (1 + len(names))
+        if r[0] == "raise":
+            return [(f"raises:{r[1]}", r[2])]
+        bad = []
+        payoff = np.asarray(mgr.payoff, dtype=float)
+        if route != "MCPath.process":
+            payoff = np.moveaxis(payoff, -1, 0)
+        spots = np.asarray(mgr.spot_underlying, dtype=float)
+        cvs = np.asarray(mgr.payoff_control_variates, dtype=float) if names else None
+        if names and cvs.shape != ((len(names), 1, 2) if multilevel else (len(names), 1)):
+            bad.append(("control-variates-of-unexpected-shape", f"shape {cvs.shape}"))
+            cvs = None
+        for lvl, idx in enumerate(idxs):
+            tag = ("fine-", "coarse-")[lvl] if multilevel else ""
+            got_p = payoff if route == "MCPath.process" else payoff[lvl]
+            got_s = spots[..., lvl] if multilevel else spots
+            if differs(got_p, mref(idx), 1e-12):
+                bad.append((f"{tag}payoff-differs-from-evaluation-on-its-own",
+                            f"{tag}payoff {np.asarray(got_p).tolist()}, alone on a copy of the path {_obs_show(mref(idx))}"))
+            exp_s = _terminal_spots(kind, paths[idx])
+            if differs(got_s, ("ok", exp_s), RTOL):
+                bad.append((f"{tag}spot-statistic-differs-from-terminal-spots",
+                            f"{tag}spot statistic {np.asarray(got_s).tolist()}, terminal spots of the path {exp_s.tolist()}"))
+            if cvs is not None:
+                for c, n in enumerate(names):
+                    got_c = cvs[c, 0, lvl] if multilevel else cvs[c, 0]
+                    if n in twins and differs(got_c, ref(n, idx), 1e-12):
+                        main_u = safe(lambda: _mk(name, rep).underlying_value(*_arrays(kind, rep, paths[idx])))
+                        if main_u[0] == "ok" and same_obs(("ok", got_c), safe(lambda: _mk(n, rep, 1.0)(main_u[1]))):
+                            bad.append(("TWIN", f"{tag}control variate {n} {np.asarray(got_c).tolist()} = its payoff on the MAIN underlying "
+                                                f"value {np.asarray(main_u[1], dtype=float).tolist()}; alone on a copy of the path {_obs_show(ref(n, idx))}"))
+                            continue
+                    if differs(got_c, ref(n, idx), 1e-12):
+                        bad.append((f"{tag}control-variate-differs-from-evaluation-on-its-own",
+                                    f"{tag}control variate {n} {np.asarray(got_c).tolist()}, alone on a copy of the path {_obs_show(ref(n, idx))}"))
+        for which in _changed(before, (t, d, j)):
+            bad.append((f"modifies-the-simulated-{which}", f"the {which} array handed to the path manager was changed"))
+        sh.outcome((name, rep, route, tuple(idxs), tuple(names), np.round(payoff, 9).tolist()))
+        return bad
+
+    def report(route, idxs, with_, bad):
+        raw = [paths[i] for i in idxs] if len(idxs) > 1 else paths[idxs[0]]
+        for cls_, text in bad:
+            if cls_ == "TWIN":
+                sh.violation(TWIN_KEY.format(ucls=ucls), f"main {name} rep {rep} {route} on {raw} ({with_.replace(':', ' ')}): {text}", {"path": raw, "main": name})
+                continue
+            sh.violation(f"{key}:{route}:{with_}:{cls_}:{rep}", f"{name} rep {rep} {route} on {raw} ({with_.replace(':', ' ')}): {text}", {"path": raw})
+
+    def sweep(route, idxs, pools):
+        if any(mref(i)[0] != "ok" for i in idxs):
+            sh.count("manager_main_raises")
+            return
+        failed = False
+        bad = run(route, idxs, [])
+        report(route, idxs, "no-control", bad)
+        failed |= bool(bad)
+        for n in controls:
+            bad = run(route, idxs, [n])
+            cu = type(_mk(n, rep).payoff_underlying).__name__
+            report(route, idxs, f"control:{_payoff_label(n)}:{cu}", bad)
+            failed |= bool(bad)
+        for n in twins:  # a control of the main underlying's class with other parameters, alone
+            cu = type(_mk(n, rep).payoff_underlying).__name__
+            report(route, idxs, f"twin-control:{_payoff_label(n)}:{cu}", run(route, idxs, [n]))
+        for names in pools:
+            if len(names) < 2:
+                continue
+            bad = run(route, idxs, names)
+            if failed:
+                sh.count("all_controls_run_not_reported_single_runs_failed", 1 if bad else 0)
+            else:
+                report(route, idxs, "all-controls-together", bad)
+                if not bad and other_main is not None:
+                    report(route, idxs, "manager-and-controls-re-used-after-another-product", run(route, idxs, names, warm=other_main))
+
+    for route in ("MCPath.process", "MLMCPath.process_l0"):
+        for idx in range(len(paths)):
+            sweep(route, [idx], [controls])
+    for i in same_len:
+        for k in same_len:
+            if i != k:
+                sweep("MLMCPath.process", [i, k], [groups[g] for g in sorted(groups)])
+    sh.count("evaluations", nev)
+    sh.cls(f"manager-{kind}-controls-{'some' if controls else 'none'}")
     sh.nontriv()
